@@ -74,6 +74,7 @@ def history(draw, labs_per_dim):
     if mode == "renamed":
         h["via"] = draw(st.sampled_from(["dims", "axis-names"]))
     if mode == "relabel":
+        h["via"] = draw(st.sampled_from(["set_axis", "set_axis", "values-setter-ndarray", "values-setter-list"]))
         h["init"] = draw(st.sampled_from(["sorted", "shuffled"]))      # the labels the array had when it was queried, before the in-place relabelling
     if mode == "slice":
         front, back = [], []
